@@ -82,13 +82,19 @@ vars == <<cfg, sub, conn, subs, dialing, conns, down, hlog, sent, nconn, nframes
 DenseKeys(c) == \A s \in Subs : c.key[s] = 1 \/ \E q \in 1..(s - 1) : c.key[q] = c.key[s] - 1
 NoBad == [s \in Subs |-> FALSE]
 Configs ==
-  { c \in [key: [Subs -> Keys], idle: {"zero", "pos"}, bad: {NoBad}, ping: {FALSE}] : DenseKeys(c) }
+  { c \in [key: [Subs -> Keys], idle: {"zero", "pos"}, bad: {NoBad}, ping: {FALSE}, hold: {FALSE}, reent: {FALSE}] : DenseKeys(c) }
 \* + at most one subscriber with an un-encodable request; pings only with idle = zero and encodable requests
 ConfigsX ==
-  { c \in [key: [Subs -> Keys], idle: {"zero", "pos"}, bad: [Subs -> BOOLEAN], ping: BOOLEAN] :
+\* hold: the upstream may hold back its answer to the client's close frame (SrvHoldClose): shutdown() stays between
+\*       "closed" and "left the pool";  reent: handlers may cancel their own subscription or subscribe another
+\*       subscriber of the same option tuple from inside the callback.  One extra at a time, the last three with idle = zero.
+  { c \in [key: [Subs -> Keys], idle: {"zero", "pos"}, bad: [Subs -> BOOLEAN], ping: BOOLEAN, hold: BOOLEAN, reent: BOOLEAN] :
        /\ DenseKeys(c)
        /\ Cardinality({s \in Subs : c.bad[s]}) <= 1
-       /\ c.ping => (c.idle = "zero" /\ c.bad = NoBad) }
+       /\ Cardinality({x \in {"bad", "ping", "hold", "reent"} :
+                          \/ (x = "bad" /\ c.bad # NoBad) \/ (x = "ping" /\ c.ping)
+                          \/ (x = "hold" /\ c.hold) \/ (x = "reent" /\ c.reent)}) <= 1
+       /\ (c.ping \/ c.hold \/ c.reent) => c.idle = "zero" }
 
 SubInit  == [pc |-> "idle", err |-> "none", blame |-> "none", ctxc |-> FALSE, cpend |-> FALSE, tgt |-> None, unsub |-> FALSE]
 ConnInit == [key |-> None, dialler |-> None,
@@ -107,6 +113,7 @@ ConnInit == [key |-> None, dialler |-> None,
              srv |-> "none",        \* server side: none | gate_up | rejected | gate_ack | open | closed (by the server)
              acked |-> FALSE,
              muted |-> FALSE,       \* the server stopped answering pings
+             held |-> FALSE,        \* the server holds back everything it would write (in particular its close frame)
              code |-> 0,            \* close code the server sent (0 = none / abrupt)
              ssubs |-> {}]          \* ids the server received a subscribe for
 
@@ -358,8 +365,13 @@ DispatchTo(c) ==
           THEN /\ subs' = [subs EXCEPT ![c][f.id] = None]
                /\ conn' = [conn EXCEPT ![c] = RemoveRec(c, f.id, FALSE)]
           ELSE UNCHANGED <<subs, conn>>
+       \* re-entrant handler: it cancels its own subscription / calls Subscribe for f.sp from inside the callback
+       /\ sub' = [x \in Subs |->
+                   IF x = h /\ f.sc THEN [sub[x] EXCEPT !.ctxc = TRUE]
+                   ELSE IF x = f.sp /\ x # h /\ sub[x].pc = "idle" THEN [sub[x] EXCEPT !.pc = "start"]
+                   ELSE sub[x]]
   /\ down' = [down EXCEPT ![c] = Tail(@)]
-  /\ UNCHANGED <<cfg, sub, dialing, conns, sent, nconn, nframes, ncancel>>
+  /\ UNCHANGED <<cfg, dialing, conns, sent, nconn, nframes, ncancel>>
 
 DispatchDrop(c) ==
   /\ ReadLive(c) /\ conn[c].sock = "open" /\ down[c] # <<>>
@@ -402,8 +414,12 @@ ReadKilled(c) ==
   /\ down' = [down EXCEPT ![c] = <<>>]
   /\ UNCHANGED <<cfg, sub, dialing, conns, hlog, sent, nconn, nframes, ncancel>>
 
+\* shutdown() first performs the WebSocket close handshake (conn.Close waits for the peer's close frame); while a
+\* live upstream holds that back, the connection is closed but neither are handlers told nor does it leave the pool
+Blocked(c) == conn[c].held /\ conn[c].srv = "open"
+
 ShutNotify(c, h) ==
-  /\ conn[c].shut = "notify" /\ h \in conn[c].pending
+  /\ conn[c].shut = "notify" /\ h \in conn[c].pending /\ ~Blocked(c)
   /\ hlog' = [hlog EXCEPT ![h] = Append(@, [k |-> "connerr", n |-> conn[c].code, id |-> 0, v |-> "-"])]
   /\ conn' = [conn EXCEPT ![c].pending = @ \ {h}]
   /\ sub' = [sub EXCEPT ![h].blame = IF @ = "none" THEN CauseBlame(c, h) ELSE @]
@@ -411,7 +427,7 @@ ShutNotify(c, h) ==
 
 \* onEmpty -> removeConn(key): deletes whatever is stored under the key
 ShutEnd(c) ==
-  /\ conn[c].shut = "notify" /\ conn[c].pending = {}
+  /\ conn[c].shut = "notify" /\ conn[c].pending = {} /\ ~Blocked(c)
   /\ conn' = [conn EXCEPT ![c].shut = "done"]
   /\ conns' = IF Fix("map") /\ conns[conn[c].key] # c THEN conns ELSE [conns EXCEPT ![conn[c].key] = None]
   /\ UNCHANGED <<cfg, sub, subs, dialing, down, hlog, sent, nconn, nframes, ncancel>>
@@ -443,10 +459,13 @@ SrvInitFail(c) == SrvAt(c, "gate_ack") /\ conn[c].stage = "init" /\ SrvSet(c, "c
 TerminalSent(s) == \E i \in 1..Len(sent[s]) : sent[s][i].k \in {"complete", "error"}
 
 \* one scripted frame for the subscription the server knows as id s (it has seen its subscribe frame)
-SrvSend(c, s, k, v) ==
-  /\ SrvAt(c, "open") /\ s \in conn[c].ssubs /\ nframes < MaxFrames /\ ~TerminalSent(s)
+\* sc / sp: what the harness handler does when it receives this frame (cancel itself / subscribe sp from inside)
+SrvSend(c, s, k, v, sc, sp) ==
+  /\ SrvAt(c, "open") /\ ~conn[c].held /\ s \in conn[c].ssubs /\ nframes < MaxFrames /\ ~TerminalSent(s)
   /\ (k = "next" /\ v \in Variants) \/ (k # "next" /\ v = "-")
-  /\ down' = [down EXCEPT ![c] = Append(@, [k |-> k, n |-> Len(sent[s]) + 1, id |-> s, v |-> v])]
+  /\ (sc \/ sp # None) => (cfg.reent /\ k = "next")
+  /\ sp # None => (sp \in Subs /\ sp # s /\ sub[sp].pc = "idle" /\ Key(sp) = Key(s))
+  /\ down' = [down EXCEPT ![c] = Append(@, [k |-> k, n |-> Len(sent[s]) + 1, id |-> s, v |-> v, sc |-> sc, sp |-> sp])]
   /\ sent' = [sent EXCEPT ![s] = Append(@, [k |-> k, n |-> Len(sent[s]) + 1, v |-> v])]
   /\ nframes' = nframes + 1
   /\ UNCHANGED <<cfg, sub, conn, subs, dialing, conns, hlog, nconn, ncancel>>
@@ -454,12 +473,22 @@ SrvSend(c, s, k, v) ==
 \* the upstream drops the connection
 \* ... with a close frame carrying code (0 = it just drops the TCP connection)
 SrvClose(c, code) ==
-  /\ SrvAt(c, "open")
+  /\ SrvAt(c, "open") /\ ~conn[c].held
   /\ conn' = [conn EXCEPT ![c].srv = "closed", ![c].code = code]
-  /\ down' = [down EXCEPT ![c] = Append(@, [k |-> "close", n |-> code, id |-> 0, v |-> "-"])]
+  /\ down' = [down EXCEPT ![c] = Append(@, [k |-> "close", n |-> code, id |-> 0, v |-> "-", sc |-> FALSE, sp |-> None])]
   /\ UNCHANGED <<cfg, sub, subs, dialing, conns, hlog, sent, nconn, nframes, ncancel>>
 
 \* the upstream stops answering pings (graphql-transport-ws ping / pong)
+\* the upstream holds back what it writes from now on - in particular the answer to a close frame - until SrvRelease
+SrvHoldClose(c) ==
+  /\ cfg.hold /\ SrvAt(c, "open") /\ ~conn[c].held
+  /\ conn' = [conn EXCEPT ![c].held = TRUE]
+  /\ UNCHANGED <<cfg, sub, subs, dialing, conns, down, hlog, sent, nconn, nframes, ncancel>>
+SrvRelease(c) ==
+  /\ conn[c].held
+  /\ conn' = [conn EXCEPT ![c].held = FALSE]
+  /\ UNCHANGED <<cfg, sub, subs, dialing, conns, down, hlog, sent, nconn, nframes, ncancel>>
+
 SrvMute(c) ==
   /\ cfg.ping /\ SrvAt(c, "open") /\ ~conn[c].muted
   /\ conn' = [conn EXCEPT ![c].muted = TRUE]
@@ -481,7 +510,8 @@ InternalConn(c) ==
 Env ==
   \/ \E s \in Subs : Call(s) \/ Cancel(s)
   \/ \E c \in Conn : SrvUpgrade(c) \/ SrvReject(c) \/ SrvAck(c) \/ SrvInitFail(c) \/ SrvClose(c, 0) \/ SrvMute(c)
-  \/ \E c \in Conn, s \in Subs, k \in Kinds : SrvSend(c, s, k, IF k = "next" THEN "d" ELSE "-")
+                     \/ SrvHoldClose(c) \/ SrvRelease(c)
+  \/ \E c \in Conn, s \in Subs, k \in Kinds : SrvSend(c, s, k, IF k = "next" THEN "d" ELSE "-", FALSE, None)
 
 Next == Env \/ (\E s \in Subs : InternalSub(s)) \/ (\E c \in Conn : InternalConn(c) \/ IdleFire(c) \/ PingSpurious(c))
 
@@ -499,7 +529,7 @@ BusyConn(c) ==
   \/ conn[c].stage \in {"req", "init"} /\ sub[conn[c].dialler].ctxc
   \/ conn[c].stage \in {"ok", "failed"} /\ (~conn[c].pub \/ ~conn[c].done)
   \/ ReadLive(c) /\ (conn[c].sock = "closed" \/ down[c] # <<>> \/ conn[c].muted)
-  \/ conn[c].shut = "notify"
+  \/ conn[c].shut = "notify" /\ ~Blocked(c)
 
 Quiescent == (\A s \in Subs : ~BusySub(s)) /\ (\A c \in Conn : ~BusyConn(c))
 TimersDone == \A c \in Conn : conn[c].timers = 0
@@ -560,6 +590,6 @@ NoStall ==
                                 /\ (sub[s].pc = "dialling" => conn[sub[s].tgt].stage \in {"req", "init"})
 
 \* bookkeeping (Stats()): the map holds exactly the live connections
-NoStaleEntry == Quiescent => \A k \in Keys : conns[k] # None => ~conn[conns[k]].closed
+NoStaleEntry == Quiescent => \A k \in Keys : conns[k] # None => (~conn[conns[k]].closed \/ Blocked(conns[k]))
 AllTracked   == Quiescent => \A c \in Conn : (conn[c].sock = "open" /\ conn[c].pub) => conns[conn[c].key] = c
 =============================================================================
